@@ -269,18 +269,35 @@ class MerchantEngine:
                 elif key == 'merchant':
                     current_rule['merchant'] = value
                 elif key == 'tags':
-                    # Parse comma-separated tags, but don't split inside parentheses
+                    # Parse comma-separated tags, but don't split inside parentheses or inside a
+                    # {expression} - where a quoted string may itself hold ( ) { } or a comma
                     tags = set()
                     depth = 0
+                    braces = 0
+                    quote = None
                     current = []
-                    for char in value:
-                        if char == '(':
+                    for i, char in enumerate(value):
+                        if quote:
+                            # inside a string literal of a {expression}: nothing counts until it closes
+                            if char == quote and value[i - 1] != '\\':
+                                quote = None
+                            current.append(char)
+                        elif braces and char in '"\'':
+                            quote = char
+                            current.append(char)
+                        elif char == '{':
+                            braces += 1
+                            current.append(char)
+                        elif char == '}' and braces:
+                            braces -= 1
+                            current.append(char)
+                        elif char == '(':
                             depth += 1
                             current.append(char)
                         elif char == ')':
                             depth -= 1
                             current.append(char)
-                        elif char == ',' and depth == 0:
+                        elif char == ',' and depth == 0 and braces == 0:
                             tag = ''.join(current).strip()
                             if tag:
                                 tags.add(tag)
